@@ -77,11 +77,21 @@ pub const SEPARATORS: &[&str] = &[
 ];
 
 pub fn token_text(k: K, rng: &mut Rng) -> String {
-    match k {
-        K::Ident => rng.pick(IDENTS).to_string(),
-        K::TerminalIdent => rng.pick(TIDENTS).to_string(),
-        K::Attr => rng.pick(ATTRS).to_string(),
-        other => other.fixed_text().unwrap().to_string(),
+    // now and then a single token of thousands of bytes (only identifiers, terminal identifiers and
+    // attributes can be long): token *length* on thresholds, as opposed to token counts
+    let long = if rng.below(400) == 0 { Some(*rng.pick(&[100usize, 255, 256, 1000, 4095, 4096, 4097, 5000, 65_535, 65_537, 100_000])) } else { None };
+    match (k, long) {
+        (K::Ident, Some(n)) => format!("{}{}", rng.pick_str(&["A", "x", "_"]), rng.pick_str(&["b", "Z", "_", "7"]).repeat(n - 1)),
+        (K::TerminalIdent, Some(n)) => format!("$T{}", rng.pick_str(&["b", "Z", "_", "7"]).repeat(n - 2)),
+        (K::Attr, Some(n)) => match rng.below(3) {
+            0 => format!("#[doc = \"{}\"]", rng.pick_str(&["x", "é", " ", "中"]).repeat(n)),
+            1 => format!("#[derive({})]", (0..n / 8 + 1).map(|i| format!("Trait{i:03}")).collect::<Vec<_>>().join(", ")),
+            _ => format!("#[{}{}]", "(".repeat(n / 2), ")".repeat(n / 2)),
+        },
+        (K::Ident, None) => rng.pick(IDENTS).to_string(),
+        (K::TerminalIdent, None) => rng.pick(TIDENTS).to_string(),
+        (K::Attr, None) => rng.pick(ATTRS).to_string(),
+        (other, _) => other.fixed_text().unwrap().to_string(),
     }
 }
 
